@@ -375,7 +375,9 @@ func c11Server(run *evid.Run) {
 			run.Count("server_inputs_skipped_declared_over_1MiB", 1)
 			continue
 		}
-		noClose := ownsDebug && inp.binary && parsemon.InconsistentFirstFrame(in) && (i%2 == 0 || inp.class == "inconsistent-keyonly")
+		// without the debug port (another memproxy on this machine owns it) the state is read from a
+		// SIGQUIT dump, which costs a proxy restart: only the key-only inputs are worth that
+		noClose := inp.binary && parsemon.InconsistentFirstFrame(in) && (ownsDebug && i%2 == 0 || inp.class == "inconsistent-keyonly")
 		if serverViolations >= 6 {
 			run.Count("server_inputs_not_run_after_6_violations", 1)
 			continue
@@ -406,6 +408,12 @@ func c11Server(run *evid.Run) {
 				n += n2
 				if rerr == nil || !isTimeout(rerr) {
 					break
+				}
+				if !ownsDebug {
+					if time.Now().After(deadline) {
+						break
+					}
+					continue
 				}
 				dump, derr := p.DebugGet("/debug/pprof/goroutine?debug=2")
 				if derr == nil && !parkedInBody(dump) {
@@ -466,6 +474,11 @@ func c11Server(run *evid.Run) {
 				}
 			case len(blocksWith(dump, "server.(*DefaultServer).Loop", "[running]")) > 0 || len(blocksWith(dump, "server.(*DefaultServer).Loop", "[runnable]")) > 0:
 				sig = "server|connection goroutine spinning"
+			case noClose:
+				// the client is still connected and the server is not inside a bogus wait: idle
+				// (or reading bytes the header declares) is legitimate
+				sig = ""
+				run.Count("server_idle_after_inconsistent_frame_(sigquit_dump)", 1)
 			default:
 				sig = "server|connection neither answered with an error nor closed"
 			}
